@@ -125,7 +125,8 @@ def generate(seed, tier):
             del remaining[j]
     return {'prop': ID, 'seed': seed, 'tier': tier, 'world': world,
             'schedule': s, 'objects': objs, 'steps': steps,
-            'equiv_inputs': [C07.gen_inputs(orng, world, orng.randrange(0, 3))
+            'equiv_inputs': [C07.gen_inputs(orng, world, orng.randrange(0, 3),
+                                            blanks=orng.chance(.3))
                              for _ in range(3)],
             'equiv_args': [[C07.gen_value(orng) for _ in range(3)]
                            for _ in range(3)]}
@@ -146,7 +147,8 @@ def gen_op(rng, world, objs, j, kind_file):
                       ('to_dict', 1)])
     op = {'op': k}
     if k == 'calc':
-        op['inputs'] = C07.gen_inputs(rng, world, rng.randrange(0, 4))
+        op['inputs'] = C07.gen_inputs(rng, world, rng.randrange(0, 4),
+                                      blanks=rng.chance(.5))
         op['outputs'] = None
     elif k == 'add':
         op['cell'] = gen_added_cell(rng, world)
@@ -225,14 +227,18 @@ def fresh_model(world, s, adds):
     return m
 
 
-def observe_model(world, s, m, ins, adds):
+def observe_model(world, s, m, ins, adds, all_adds=()):
+    """Observables of one calculation: every world cell and name, plus every
+    cell that ANY object of the run ever adds (a cell added to another object
+    must stay absent here)."""
     P = Placement(s['placement'])
     d, _ = C07.lib_inputs(world, P, m, ins)
     sol = m.calculate(inputs=d)
     o = Observation(world, s['placement'], sol).normal()
-    for k, cell in enumerate(adds):
+    for cell in list(adds) + [c for c in all_adds if c not in adds]:
         key, _ = added_item(world, P, cell)
-        o['a%d' % k] = norm_value(sol[key]) if key in sol else MISSING
+        o['add@%s' % (cell['at'],)] = norm_value(sol[key]) \
+            if key in sol else MISSING
     return o
 
 
@@ -275,6 +281,13 @@ def execute(trace, env=None):
              tb=traceback.format_exc()[-1500:])
         return result(trace, viol, log, stats, False)
     used_inputs = {}
+    all_adds = [st['op']['cell'] for st in trace['steps']
+                if st['do'] == 'op' and st['op']['op'] == 'add']
+    # References first: the lineage of every object at every step is a static
+    # function of the trace, so the fresh-lineage results are computed before
+    # any object of the run is touched - state shared at module level cannot
+    # pollute reference and subject alike.
+    refs = precompute_refs(trace, world, s, P, all_adds, stats)
     interleaved = False
     last_actor = None
     for si, step in enumerate(trace['steps']):
@@ -322,8 +335,10 @@ def execute(trace, env=None):
                     try:
                         if o.kind == 'model':
                             ins = trace['equiv_inputs'][q]
-                            a = observe_model(world, s, src.obj, ins, o.adds)
-                            b = observe_model(world, s, o.obj, ins, o.adds)
+                            a = observe_model(world, s, src.obj, ins, o.adds,
+                                              all_adds)
+                            b = observe_model(world, s, o.obj, ins, o.adds,
+                                              all_adds)
                         else:
                             args = trace['equiv_args'][q]
                             a = call_func(src.obj, args, o.meta['n'])
@@ -359,9 +374,13 @@ def execute(trace, env=None):
                     stats['interference_ops_on_changed_copies'] += 1
                     log.add('actor%d' % j, 'calc-unobserved')
                     continue
-                got = observe_model(world, s, o.obj, op['inputs'], o.adds)
-                ref = observe_model(world, s, fresh_model(world, s, o.adds),
-                                    op['inputs'], o.adds)
+                got = observe_model(world, s, o.obj, op['inputs'], o.adds,
+                                    all_adds)
+                ref = refs.get(si)
+                if ref is None:
+                    ref = observe_model(world, s,
+                                        fresh_model(world, s, o.adds),
+                                        op['inputs'], o.adds, all_adds)
                 stats['indep_compared'] += 1
                 o.observations += 1
                 used_inputs.setdefault(j, []).append(digest(op['inputs']))
@@ -375,11 +394,8 @@ def execute(trace, env=None):
                             first_diff(got, ref)), obj=j, step=si)
             elif k == 'call':
                 got = call_func(o.obj, op['args'], o.meta['n'])
-                fm = fresh_model(world, s, o.adds)
-                try:
-                    ff = compile_func(world, P, fm, o.meta['spec'])
-                    ref = call_func(ff, op['args'], o.meta['n'])
-                except Exception:
+                ref = refs.get(si)
+                if ref is None:
                     stats['ignored_errors'] += 1
                     continue
                 stats['func_compared'] += 1
@@ -431,6 +447,48 @@ def execute(trace, env=None):
     return result(trace, viol, log, stats, nontrivial)
 
 
+def precompute_refs(trace, world, s, P, all_adds, stats):
+    adds, copied, changed, spec_of = {0: []}, {0: False}, {0: False}, {}
+    refs = {}
+    for si, st in enumerate(trace['steps']):
+        j = st['obj']
+        spec = trace['objects'][j]
+        if st['do'] == 'make':
+            src = spec['src']
+            if src not in adds:
+                continue
+            if spec['kind'] == 'compile' and changed[src]:
+                continue
+            adds[j] = list(adds[src])
+            copied[j] = spec['kind'] != 'compile'
+            changed[j] = changed[src]
+            spec_of[j] = spec if spec['kind'] == 'compile' else \
+                spec_of.get(src)
+            continue
+        if j not in adds:
+            continue
+        op = st['op']
+        k = op['op']
+        try:
+            if k == 'calc' and not changed[j]:
+                refs[si] = observe_model(
+                    world, s, fresh_model(world, s, adds[j]), op['inputs'],
+                    adds[j], all_adds)
+            elif k == 'call' and spec_of.get(j):
+                fm = fresh_model(world, s, adds[j])
+                ff = compile_func(world, P, fm, spec_of[j])
+                refs[si] = call_func(ff, op['args'],
+                                     len(spec_of[j]['inputs']))
+            elif k in ('finish', 'add') and copied[j] and \
+                    trace['objects'][j]['kind'] != 'compile':
+                changed[j] = True
+            if k == 'add' and not copied[j]:
+                adds[j].append(op['cell'])
+        except Exception:
+            refs[si] = None
+    return refs
+
+
 def first_diff(a, b):
     if isinstance(a, dict):
         for k in sorted(a):
@@ -438,6 +496,46 @@ def first_diff(a, b):
                 return '%s = %s vs %s' % (k, a[k], b.get(k))
         return 'key sets differ'
     return '%s vs %s' % (a, b)
+
+
+def signature(trace, v):
+    """F-C17-1: a function compiled from a model reads the blank cells of
+    sparse ranges (>= 2 unpopulated cells) from the SOURCE MODEL's last
+    solution: an override of such a blank cell on the model shows up in later
+    calls of the compiled function."""
+    if v['clause'] != 'C17.func' or 'step' not in v:
+        return None
+    from ..cyc import Graph
+    from ..expr import refs_of, rect_cells
+    world = trace['world']
+    blanks = set()
+    for st in trace['steps'][:v['step']]:
+        if st['do'] == 'op' and st['op']['op'] == 'calc':
+            for t, _ in st['op']['inputs']:
+                if t[0] == 'blank':
+                    blanks.add(tuple(t[1]))
+                elif t[0] in ('name', 'range'):
+                    r = world['names'][t[1]]['t'] if t[0] == 'name' else t[1]
+                    idx = Index(world)
+                    blanks.update(p for p in rect_cells(r)
+                                  if idx.occupant(p) is None)
+    if not blanks:
+        return None
+    spec = trace['objects'][v['obj']]
+    while spec['kind'] != 'compile':
+        spec = trace['objects'][spec['src']]
+    G = Graph(world)
+    for o in spec['outputs']:
+        for u in G.reach(o):
+            c = world['cells'][u]
+            if 'f' not in c:
+                continue
+            for x in refs_of(c['f']):
+                r = x if x[0] == 'r' else world['names'][x[1]]['t']
+                if blanks & set(rect_cells(r)):
+                    return 'C17.func/compiled-function-reads-blank-cells-' \
+                        'from-model-solution'
+    return None
 
 
 def result(trace, viol, log, stats, nontrivial):
